@@ -98,18 +98,37 @@ Section Element.
   Qed.
 End Element.
 
-(* non-vacuity: 1e77 (between 2^255 and 2^256), 100.0, 1.5e1, 120e-1, +0x1F, and a canonical spelling *)
-Example exact_spellings_examples :
-  text_denotes (bs "1e77") (10 ^ 77) /\ exponent_moderate (bs "1e77") /\
-  in_range false 256 (10 ^ 77) = true /\ in_range true 256 (10 ^ 77) = false /\
-  text_denotes (bs "100.0") 100 /\ exponent_moderate (bs "100.0") /\
-  text_denotes (bs "1.5e1") 15 /\ exponent_moderate (bs "1.5e1") /\
-  text_denotes (bs "-120E-1") (-12) /\ exponent_moderate (bs "-120E-1") /\
-  text_denotes (bs "+0x1F") 31 /\ exponent_moderate (bs "+0x1F") /\
-  text_denotes (dec_text (2 ^ 63)) (2 ^ 63) /\ exponent_moderate (dec_text (2 ^ 63)) /\
-  (forall z, ~ text_denotes (bs "1.5") z) /\ ~ exponent_moderate (bs "1e1000001").
+(* non-vacuity: 1e77 (between 2^255 and 2^256), 100.0, 1.5e1, -120E-1, +0x1F, a canonical spelling;
+   1.5 denotes no integer; 1e1000001 is beyond the exponents math/big expands *)
+Example ex_1e77 : text_denotes (bs "1e77") (10 ^ 77) /\ exponent_moderate (bs "1e77") /\
+  in_range false 256 (10 ^ 77) = true /\ in_range true 256 (10 ^ 77) = false.
 Proof.
-  repeat split; try (vm_compute; reflexivity); try (vm_compute; intros; discriminate).
-  - vm_compute. intros z Hz. lia.
-  - vm_compute. intros [_ Hc]. apply Hc. reflexivity.
+  split; [vm_compute; reflexivity|]. split; [vm_compute; split; [reflexivity|discriminate]|].
+  split; vm_compute; reflexivity.
 Qed.
+Example ex_dot_zero : text_denotes (bs "100.0") 100 /\ exponent_moderate (bs "100.0").
+Proof. split; [vm_compute; reflexivity|]. vm_compute. split; [reflexivity|discriminate]. Qed.
+Example ex_sci : text_denotes (bs "1.5e1") 15 /\ exponent_moderate (bs "1.5e1").
+Proof. split; [vm_compute; reflexivity|]. vm_compute. split; [reflexivity|discriminate]. Qed.
+Example ex_neg_exp : text_denotes (bs "-120E-1") (-12) /\ exponent_moderate (bs "-120E-1").
+Proof. split; [vm_compute; reflexivity|]. vm_compute. split; [reflexivity|discriminate]. Qed.
+Example ex_hex : text_denotes (bs "+0x1F") 31 /\ exponent_moderate (bs "+0x1F").
+Proof. split; [vm_compute; reflexivity|]. vm_compute. exact I. Qed.
+Example ex_fraction : forall z, ~ text_denotes (bs "1.5") z.
+Proof.
+  intros z Hz. unfold text_denotes in Hz.
+  assert (E : classify (bs "1.5") = CSci false (bs "1") (bs "5") false []) by (vm_compute; reflexivity).
+  rewrite E in Hz. unfold sci_denotes in Hz. cbv zeta in Hz.
+  assert (Em : dec_value (bs "1" ++ bs "5") = 15) by (vm_compute; reflexivity).
+  assert (En : signed false (dec_value []) - Z.of_nat (length (bs "5")) = -1) by (vm_compute; reflexivity).
+  rewrite Em, En in Hz. change (0 <=? -1) with false in Hz. change (10 ^ (- -1)) with 10 in Hz.
+  unfold signed in Hz. lia.
+Qed.
+Example ex_huge_exponent : ~ exponent_moderate (bs "1e1000001").
+Proof. intros Hm. vm_compute in Hm. destruct Hm as [_ Hc]. apply Hc. reflexivity. Qed.
+
+(* at a uint256 member the JSON number 1e77 is the word of 10^77; at an int256 member it is refused *)
+Example ex_1e77_member :
+  encodeElement (fun _ => []) (fun _ => None) [] 1 (bs "uint256") (GNumber (bs "1e77")) = Ok (word (10 ^ 77)) /\
+  encodeElement (fun _ => []) (fun _ => None) [] 1 (bs "int256") (GNumber (bs "1e77")) = Err ETooLarge.
+Proof. split; vm_compute; reflexivity. Qed.
